@@ -17,6 +17,8 @@ def c20_send(msg_hex, want_mirrors, want_err):
         if 'panic' in r:
             return True, 'native panic: ' + r['panic']
         d = []
+        if r['steps'][0].get('blocked'):
+            d.append('Server::send did not return within 2 s: the request path waits on a mirror')
         if ('err' in r['steps'][0]) != want_err:
             d.append('send result %r' % (r['steps'][0],))
         if r.get('written_hex') != msg_hex:
